@@ -26,6 +26,8 @@ from cell_type_mapper.utils.multiprocessing_utils import (
 
 import cell_type_mapper.utils.distance_utils as distance_utils
 
+import cell_type_mapper.utils.verif_hooks as verif_hooks
+
 from cell_type_mapper.type_assignment.utils import (
     reconcile_taxonomy_and_markers)
 
@@ -307,6 +309,9 @@ def _run_type_assignment_on_h5ad_worker(
         bootstrap_iteration=bootstrap_iteration,
         rng=rng,
         n_assignments=n_assignments)
+
+    verif_hooks.emit(
+        'chunk', r0=r0, r1=r1, cell_ids=list(query_cell_names))
 
     for idx in range(len(assignment)):
         assignment[idx]['cell_id'] = query_cell_names[idx]
@@ -653,6 +658,16 @@ def _run_type_assignment(
         parent_node=parent_node)
     update_timer("assemble", t, timers)
 
+    if verif_hooks.enabled():
+        verif_hooks.emit(
+            'node',
+            parent=parent_node,
+            query_genes=query_data['query_data'].gene_identifiers,
+            reference_genes=query_data['reference_data'].gene_identifiers,
+            reference_leaves=query_data['reference_data'].cell_identifiers,
+            reference_types=query_data['reference_types'],
+            n_cells=query_data['query_data'].n_cells)
+
     t = time.time()
     (result,
      bootstrapping_probability,
@@ -842,6 +857,9 @@ def tally_votes(
         t2 = time.time()
         chosen_idx = rng.choice(marker_idx, n_bootstrap, replace=False)
         chosen_idx = np.sort(chosen_idx)
+        verif_hooks.emit(
+            'subset', iteration=i_iteration, n_markers=n_markers,
+            chosen_idx=chosen_idx)
         bootstrap_query = query_gene_data[:, chosen_idx]
         bootstrap_reference = reference_gene_data[:, chosen_idx]
         update_timer("looppreproc", t2, timers)
